@@ -88,7 +88,14 @@ class Watch:
 
 
 def run_case(ctx, case, rng):
-  spec = models.model_for_case(rng, multi_sub_p=0.0, template_p=0.25, allow_emb=True)
+  fan = None
+  if rng.random() < 0.2:
+    # one tensor read by 3-5 operators, each with its own name-targeted static config: several QUANTIZE operators
+    # (and colliding tensor names) are inserted on the same tensor -- state kept between calls would show here
+    spec, fan = models.t_fanout(rng)
+    ctx.count('fanout_models')
+  else:
+    spec = models.model_for_case(rng, multi_sub_p=0.0, template_p=0.25, allow_emb=True)
   sig = spec.signatures[0]
   data = gdata.dataset(rng, sig, n=2)
   ok, _ = common.admit(spec, {sig['key']: data})
@@ -96,6 +103,18 @@ def run_case(ctx, case, rng):
     return {'outcome': 'skipped', 'reason': 'generator_reject'}
   src = models.read(spec.content)
   pool = recipe_pool(rng, src)
+  if fan:
+    import re
+    stat = ['srq8a_cw', 'srq8s_cw', 'srq16_cw', 'srq8a_tw', 'srq16_tw']
+    def ok(sel, name):
+      return recipes.declared_supported(recipes.CFGS[name][0], sel, recipes.CFGS[name][1])
+    for i in range(len(pool)):
+      rr = [('.*', '*', str(rng.choice(SRQ8)))]
+      for sel, out_name in fan:
+        cand = [n for n in stat if ok(sel, n)]
+        if cand and rng.random() < 0.9:
+          rr.append((re.escape(out_name), sel, str(rng.choice(cand))))
+      pool[i] = rr
   # the API accepts a (mutable) bytearray: use one in half of the histories so that an in-place edit would be observable
   model = bytearray(spec.content) if rng.random() < 0.5 else bytes(spec.content)
   qs = [aeq.Quantizer(model), aeq.Quantizer(model)] if rng.random() < 0.6 else [aeq.Quantizer(model)]
